@@ -62,7 +62,7 @@ def main():
                     items.append((os.path.basename(dirpath), os.path.join(dirpath, f)))
                 elif f.endswith('.patch'):
                     items.append((os.path.relpath(os.path.join(dirpath, f), root), os.path.join(dirpath, f)))
-    with concurrent.futures.ThreadPoolExecutor(8) as ex:
+    with concurrent.futures.ThreadPoolExecutor(int(os.environ.get("NV_JOBS", "8"))) as ex:
         out = dict(ex.map(run_one, items))
     for name in sorted(out):
         r = out[name]
